@@ -40,6 +40,7 @@ class Pkg:
         self.cmd = cmd
         self.files = {}          # source file name -> [type names] in declaration order
         self.genlines = {}       # source file name -> [command lines] (//go:generate comments)
+        self.nothing = False     # only INELIGIBLE types: -file / -type=* runs generate nothing
         self.extra = {}          # map only: source file name -> [(source type, destination type)]: types that only
                                  # an explicit `-type=S -to=D` run maps (no destination type of the same name, or an
                                  # unexported source type): -file and -type=* do not cover them
@@ -90,6 +91,17 @@ def gen_pkg(rng, cmd):
     return p
 
 
+def _type_text_ineligible(cmd, t, k):
+    """a declaration of the package that the subcommand's -file / -type=* selection skips"""
+    if cmd == "new":
+        return "type _%s struct {\n\tx int\n}\n" % t           # `_` prefix: not a constructor target
+    if cmd == "enum":
+        return "type %s %s\n" % (t, ["int", "uint8", "int64"][k % 3])     # an integer type without constants
+    if cmd == "rest":
+        return "type %s interface {\n\tFoo%d() int\n}\n" % (t, k)      # no embedded shoot.RestClient
+    return "type %s struct {\n\tID int\n}\n" % t                   # map: no destination type of that name
+
+
 def _type_text(cmd, t, k):
     cap = t[0].upper() + t[1:]
     if cmd == "new":
@@ -112,14 +124,14 @@ def render_pkg(p):
     k = 0
     for f in sorted(p.files):
         txt = "package p\n\n"
-        if p.cmd == "rest":
+        if p.cmd == "rest" and not p.nothing:
             txt += 'import (\n\t"context"\n\t"net/http"\n\n\t"github.com/lopolopen/shoot"\n)\n\n'
         for line in p.genlines[f]:
             txt += "//go:generate " + line + "\n"
         if p.genlines[f]:
             txt += "\n"
         for t in p.files[f]:
-            txt += _type_text(p.cmd, t, k) + "\n"
+            txt += (_type_text_ineligible if p.nothing else _type_text)(p.cmd, t, k) + "\n"
             k += 1
         for j, (s, _) in enumerate(p.extra.get(f, [])):
             txt += _type_text("map", s, j) + "\n"
@@ -127,8 +139,10 @@ def render_pkg(p):
     if p.cmd == "map":
         txt = "package dest\n\n"
         k = 0
+        if p.nothing:
+            txt += "type Unrelated struct {\n\tID int\n}\n\n"
         for f in sorted(p.files):
-            for t in p.files[f]:
+            for t in ([] if p.nothing else p.files[f]):
                 txt += _type_text("map", t, k) + "\n"
                 k += 1
         for f in sorted(p.extra):
@@ -212,6 +226,8 @@ class Inv:
     def selection(self):
         """(source file, type name) per expected output; Python mirror of fileName"""
         p = self.p
+        if p.nothing and self.mode not in ("types", "types_to"):
+            return []            # nothing is eligible: "nothing generated", main returns before Clean
         if self.mode in ("types", "types_to"):
             return [(p.decl_file(t), t) for t in self.types]
         if self.mode == "file":
